@@ -754,6 +754,11 @@ func c09Judge(c *fw.Ctx, g *c09Git, cs *c09Case, stats *c09Stats) {
 		return
 	}
 	c.Class("git-rejects:" + gv.class)
+	if !gv.structural && strings.Contains(gv.class, "unresolved delta") && strings.HasPrefix(diag(), "ofs-delta base offset") {
+		// "unresolved" because an OFS_DELTA points at something that is not an
+		// entry: that is not a missing thin base but a broken pack
+		gv.structural = true
+	}
 	if !gv.structural {
 		return
 	}
@@ -1025,6 +1030,7 @@ func c09Hand(c *fw.Ctx, bases []*c09Base, add func(b *c09Base, pack []byte, fami
 		{"target size not reached", ""},
 		{"trailing instruction after the target is complete", ""},
 		{"source size mismatch", ""},
+		{"source size smaller than the base", ""},
 		{"opcode 0", ""},
 	} {
 		var d []byte
@@ -1040,6 +1046,8 @@ func c09Hand(c *fw.Ctx, bases []*c09Base, add func(b *c09Base, pack []byte, fami
 			d = append(append([]byte{}, hdr...), 0x90, 20, 0x90, 1)
 		case "source size mismatch":
 			d = append(append(bVarint(uint64(len(src)+1)), bVarint(20)...), 0x90, 20)
+		case "source size smaller than the base":
+			d = append(append(bVarint(uint64(len(src)-1)), bVarint(20)...), 0x90, 20)
 		case "opcode 0":
 			d = append(append([]byte{}, hdr...), 0x90, 19, 0x00, 'x')
 		}
